@@ -90,6 +90,12 @@ func TestC06(t *testing.T) {
 		if fam == "nsx" {
 			sc.Hostname = "router"
 		}
+		if fam == "panos" && rapid.IntRange(0, 3).Draw(rt, "firstVsysUnmanaged") == 0 {
+			sc.MarkerVsys = "first"
+			if strings.Count(sc.Device, "</display-name>") >= 2 {
+				ev.Class("c06:first-of-several-vsys-unmanaged")
+			}
+		}
 		if fam == "panos" {
 			sc.Members = []httpdev.PanMember{rapid.SampledFrom([]httpdev.PanMember{
 				{}, {}, {HAEnabled: true, Mode: "Active-Passive", State: "active"},
